@@ -24,7 +24,11 @@ class Observer(MuxObserver):
 def configs(tier):
     ls = layouts(tier)
     twice = [dict(l, elab_twice=True) for l in ls if l["ov"] == 0 and len(l["regs"]) >= 2][::4]
-    return ls + twice
+    # the multiplexer constructed while its memory map is still growing (it does not freeze the map): registers
+    # added afterwards must be served like the others
+    many = [l for l in ls if len(l["regs"]) >= 2]
+    late = [dict(l, late=(i % len(l["regs"]))) for i, l in enumerate(many[::7])]
+    return ls + twice + late
 
 
 def run_config(cfg, tier, seed):
